@@ -753,7 +753,7 @@ pub fn check(property: &str, tier: &str) -> i32 {
         }
     }
     let limit_kinds: &[u64] = match property {
-        "C04" => &[5, 6, 7, 8, 9, 10, 12, 14, 15, 2, 24, 25],
+        "C04" => &[5, 6, 7, 8, 9, 10, 12, 14, 15, 2, 24, 25, 26],
         "C03" => &[22, 3, 8, 14],
         "C01" => &[22, 4, 9, 13],
         "C08" => &[22, 9, 11, 24],
